@@ -81,9 +81,9 @@ fn main() {
             Err(_) => format!("PANIC {}", PANIC_LOC.with(|p| p.borrow().clone())),
         };
         writeln!(out, "{}\t{}", id, res).unwrap();
-        if unbuffered {
-            out.flush().unwrap();
-        }
+        // always flush: the supervisor attributes a hang to the first case without a result line
+        let _ = unbuffered;
+        out.flush().unwrap();
     }
     out.flush().unwrap();
 }
